@@ -261,14 +261,15 @@ Section model.
   Definition init : mstate :=
     MS {[ 0 := [(cn, ws)] ]} 1 [] 0 {[ ws := {[ 0 ]} ]} {[ None := {[ 0 ]} ]}.
 
-  (** VMF.parse: drop the constructor's placeholder worldspawn from the indexes, build the parsed worldspawn
-      (Entity.parse -> Entity(map, keys)), make it [spawn], force its class, index its name. *)
+  (** VMF.parse: build the parsed worldspawn (Entity.parse -> Entity(map, keys), not in the map), drop the
+      constructor's placeholder worldspawn from the indexes, make the new one [spawn], force its class, index
+      its name. *)
   Definition replace_spawn (l : kvs) (st : mstate) : mstate :=
-    let old := spawn st in
-    let st1 := upd_target (ix_remove None old) (upd_class (ix_remove ws old) st) in
-    let e := nobj st1 in
-    let st2 := new_ent l st1 in
-    let st3 := MS (objs st2) (nobj st2) (ents st2) e (by_class st2) (by_target st2) in
+    let e := nobj st in
+    let st2 := new_ent l st in
+    let old := spawn st2 in
+    let st3 := MS (objs st2) (nobj st2) (ents st2) e
+                  (ix_remove ws old (by_class st2)) (ix_remove None old (by_target st2)) in
     let st4 := (set_item e cn ws st3).1 in
     upd_target (ix_add (tgt_of st4 e) e) st4.
 
